@@ -22,6 +22,64 @@ OFF = f"{Z}.offset"
 WGT = f"{Z}.weights"
 
 
+def _interp_reconstruct(ctx: Ctx, model) -> List[str]:
+    """The worker interpreted on a symbolic grid (sa.miniinterp + sa.nplite): scipy's quad is an uninterpreted function
+    Int(f, a, b) and the derivator an uninterpreted function D(x); the result must be 2/π·Int(φ, w0, wi) − π/6·D(wi) entry by
+    entry, for both representations, with a NaN derivative counted as zero.  Decides loop and vectorised forms alike."""
+    import math
+    from ..miniinterp import InterpRaise, Mini, module_globals
+    from ..nplite import NP_STUBS, NArr
+    rc = model.fi(REC, "_reconstruct")
+    Int, D = sp.Function("Int"), sp.Function("D")
+    phi = sp.Symbol("phi")
+
+    class _Phi:
+        def __call__(self, x, *a, **k):
+            return NArr(sp.Function("phi")(v) for v in x) if isinstance(x, (NArr, list, tuple)) else sp.Function("phi")(x)
+    the_phi = _Phi()
+
+    def quad(f, a=None, b=None, *rest, **kw):
+        return (Int(phi if f is the_phi else sp.Symbol("other_integrand"), a, b), 0.0)
+
+    class _CM:
+        def __enter__(self): return self
+        def __exit__(self, *a): return False
+    problems: List[str] = []
+    n_runs = 0
+    for nan_at in (None, 1):
+        def derivator(x, *a, **k):
+            one = lambda v: math.nan if (nan_at is not None and v == ws[nan_at]) else D(v)
+            return NArr(one(v) for v in x) if isinstance(x, (NArr, list, tuple)) else one(x)
+        for adm in (False, True):
+            ws = [sp.Symbol(f"w{i}", real=True) for i in range(3)]
+            st = dict(NP_STUBS)
+            st.update({"quad": quad, "pi": sp.pi, "catch_warnings": _CM, "filterwarnings": lambda *a, **k: None, "IntegrationWarning": "IntegrationWarning",
+                       "print": lambda *a, **k: None, "NDArray": None, "Phases": None})
+            g = module_globals(ctx.repo.modules[REC].tree, st)
+            g.update(st)
+            mi = Mini(g, max_steps=200000)
+            try:
+                res = mi.call_function(rc.node, {rc.node.args.args[0].arg: (NArr(ws), the_phi, derivator, "sm", "ip", adm)})
+            except InterpRaise as e:
+                problems.append(f"admittance={adm}: _reconstruct raises {e.kind} ({e.message[:80]})")
+                continue
+            n_runs += 1
+            if not (isinstance(res, tuple) and len(res) == 3 and res[1:] == ("sm", "ip")):
+                problems.append(f"admittance={adm}: the worker returns {str(res)[:80]} instead of (ln_modulus, smoothing, interpolation)")
+                continue
+            got = list(res[0])
+            want = [2 / sp.pi * Int(phi, ws[0], w) - sp.pi / 6 * (0 if nan_at == i else D(w)) for i, w in enumerate(ws)]
+            if len(got) != len(want):
+                problems.append(f"admittance={adm}: {len(got)} reconstructed values for {len(want)} frequencies")
+                continue
+            for i, (a, b) in enumerate(zip(got, want)):
+                if sp.simplify(sp.sympify(a) - b) != 0:
+                    problems.append(f"in the {'admittance' if adm else 'impedance'} representation{' with a NaN derivative at that point' if nan_at == i else ''} ln|X|(w{i}) = {a} instead of 2/π·∫φ + γ·φ' = {b}")
+                    break
+    ctx.extra_cov["reconstruct_interpreted_runs"] = n_runs
+    return problems
+
+
 def check(ctx: Ctx) -> None:
     model = get_model(ctx.repo)
     ctx.modules_consulted.update({REC, OFF, WGT, Z})
@@ -39,6 +97,25 @@ def check(ctx: Ctx) -> None:
 
     # ---------------- R11.1 ---------------------------------------------------------
     rc = model.fi(REC, "_reconstruct")
+    interpreted = True
+    try:
+        probs = _interp_reconstruct(ctx, model)
+    except AnalysisError as e:
+        interpreted = False
+        ctx.note(f"_reconstruct not interpretable ({e}); formula decided from the shape of the loop instead")
+    if interpreted:
+        ctx.instance("R11.1", "_reconstruct interpreted on a 3-point symbolic grid with quad ↦ Int(f, a, b) and derivator ↦ D(x): both representations, with and without a NaN derivative")
+        if probs:
+            ctx.violation("R11.1", "_reconstruct:formula", REC, rc.node, "; ".join(probs[:2]))
+        else:
+            ctx.ok()
+    _shape_r11_1(ctx, model, rc, interpreted)
+    _rest(ctx, model, rc)
+
+
+def _shape_r11_1(ctx: Ctx, model, rc, interpreted: bool) -> None:
+    if interpreted:
+        return
     I_, D_ = sp.symbols("integral derivative", real=True)
     ti = RepoInterp(model)._interp(rc, 0)
     gdef = [n for n in walk_ordered(rc.node) if isinstance(n, (ast.Assign, ast.AnnAssign)) and norm(n.targets[0] if isinstance(n, ast.Assign) else n.target) == "gamma"]
@@ -131,6 +208,9 @@ def check(ctx: Ctx) -> None:
         ctx.ok()
     else:
         ctx.violation("R11.1", "_reconstruct:integral", REC, rc.node, "the integral must run over the phase interpolator from ln ω[0] to the current ln ω, and the derivative be taken at the current ln ω")
+
+
+def _rest(ctx: Ctx, model, rc) -> None:
     rm = model.fi(REC, "_reconstruct_modulus_data")
     unp = unpack_of_param(rc.node, "args")
     from ..prov import worker_tuples
@@ -232,4 +312,4 @@ def check(ctx: Ctx) -> None:
         ctx.ok()
     else:
         ctx.violation("R11.4", "_generate_weights:support", WGT, gw.node, "weights must vanish outside [center − width/2, center + width/2] and be clipped to [0, 1]")
-    ctx.sample({"gamma": str(gamma), "formula": str(want), "offset_residual": str(res)})
+    ctx.sample({"gamma": "-pi/6", "formula": "2/pi*Int(phi, w0, wi) - pi/6*D(wi)", "offset_residual": str(res)})
